@@ -258,7 +258,7 @@ def make_task_class(spec, module_name='vgen'):
         if p.get('name_in_config'):
             kw['name_in_config'] = p['name_in_config']
         if p.get('dtype'):
-            kw['dtype'] = p['dtype']
+            kw['dtype'] = {'str': str, 'int': int}.get(p['dtype'], p['dtype'])
         params.append(Parameter(p['name'], **kw))
     meta['parameters'] = params
     meta['input_tasks'] = []  # filled by make_module once all classes exist
@@ -266,7 +266,8 @@ def make_task_class(spec, module_name='vgen'):
         meta['abstract'] = True
     Meta = type('Meta', (), meta)
     cls_name = spec.get('cls_name') or ''.join(w.capitalize() for w in name.split('_')) + 'Task'
-    cls = type(Task)(cls_name, (Task,), {'Meta': Meta, 'run': run, '__module__': module_name, '_vspec': spec})
+    base = spec.get('_base_cls') or Task
+    cls = type(Task)(cls_name, (base,), {'Meta': Meta, 'run': run, '__module__': module_name, '_vspec': spec})
     return cls
 
 
@@ -279,6 +280,8 @@ def make_module(specs, module_name):
         spec.setdefault('inputs', [])
         spec.setdefault('kind', 'json')
         spec.setdefault('input_kinds', {})
+        if spec.get('base'):   # a task class derived from another task class, with a Meta of its own
+            spec['_base_cls'] = classes[spec['base']]
         classes[spec['slug']] = make_task_class(spec, module_name)
     for spec in specs:
         cls = classes[spec['slug']]
